@@ -3,14 +3,19 @@ from harness import ll_common as ll
 
 PROPERTY = "C02"
 STATEFUL = True
-READY = False
-THEOREMS = []
+READY = True
+THEOREMS = ["C02.sets_closed", "C02.det_complete", "C02.fact_lang_eq", "C02.exact", "C02.reject_raises", "C02.smart_indep",
+            "C02.ll1_as_written_unambiguous_partial"]
 RULE = ("one case = one generated grammar (generators as C01, more LL(1)-ish ones), constructed with "
         "smart_factorization True and False, each followed by every token string up to the tier's length plus "
         "sampled sentences (members) ; non-trivial = grammar accepted with is_ambiguous() False for at least one "
         "setting and at least one member and one non-member among the inputs; distinct by protocol text")
 TRUSTED = ["re (lexemes are found by the harness with the tokenizer's own pattern)"]
-ASSUMPTIONS = []
+ASSUMPTIONS = ["hypotheses of C02.exact / reject_raises: as C01.parse_valid (no `__` name on a right-hand side, start symbol is a "
+               "user key, no lexeme named $END$)",
+               "'LL(1) as written => is_ambiguous() False' is proved only as 'is_ambiguous() False <=> the computed predict sets of the "
+               "factorised rules are pairwise disjoint' (C02.ll1_as_written_unambiguous_partial); exactness of the computed sets and the "
+               "transfer through factorisation rest on the oracle (independent FIRST/FOLLOW on the user's grammar)"]
 
 
 def impl(case):
@@ -80,6 +85,12 @@ def tags(case, replies):
 shrink = ll.shrink
 observable = ll.observable
 
-LEVEL_TEXT = "under construction"
-LEVEL_NOTE = ""
-TECHNIQUE = "Lean 4 theorems + correspondence check"
+LEVEL_TEXT = ("Kernel-checked on the executable model, for ALL grammars and token lists: when is_ambiguous() is False the parser "
+              "accepts exactly the sentences of the user's grammar (C02.exact: soundness from C01, completeness C02.det_complete "
+              "with the closure conditions read off the nullable/FIRST/FOLLOW loops and the table, C02.sets_closed; factorisation "
+              "preserves the language, C02.fact_lang_eq), identically for both smart_factorization values (C02.smart_indep); every "
+              "non-sentence ends in ParsingError (C02.reject_raises). The clause 'LL(1) as written is reported unambiguous' is "
+              "partial (see ASSUMPTIONS). model = code by a differential run incl. nullables, FIRST, FOLLOW and table as diagnostics.")
+LEVEL_NOTE = ("Trusted: Lean kernel (axioms propext, Classical.choice, Quot.sound), harness adapter/oracle (memoised CFG recogniser, "
+              "independent FIRST/FOLLOW), sampled correspondence.")
+TECHNIQUE = "Lean 4 theorems (fixpoint exits, structural induction on derivation trees) + differential testing against the real LLParser"
